@@ -16,7 +16,8 @@
    compute_shortest_distances_matrix (both heap configurations, any admissible queue). *)
 From Coq Require Import List Arith Bool ZArith Permutation.
 From TK Require Import Conn_Model Conn_Spec Conn_Proof Conn_Proof_Main Conn_Proof_Order
-     Conn_Proof_Dijkstra Conn_Proof_Knn Conn_Proof_Sym Conn_Proof_Consumer Conn_Proof_Methods.
+     Conn_Proof_Dijkstra Conn_Proof_Knn Conn_Proof_Sym Conn_Proof_Consumer Conn_Proof_Methods
+     Conn_Proof_Ties.
 From TK Require Dijkstra_Model Dijkstra_Spec Dijkstra_Proof_Base Knn_Spec Knn_Brute_Model Knn_VpTree_Model
      Knn_VpTree_Proof Knn_CoverSel_Model.
 Import ListNotations.
@@ -169,6 +170,46 @@ Theorem cc_order_ties_refuted :
       find_neighbors is_connected_fixed (knn_brute (rev pts)) N N k true = COk (k2, g2).
 Proof. exact main_cc_ties_order_refuted. Qed.
 Print Assumptions cc_order_ties_refuted.
+
+(* ---- exactly which ties matter.  boundary_free_b dist N k: no sample has a tie at the boundary of its k-NN
+        list (sorted distances ds of the sample: ds[k-1] <> ds[k]; the test the check applies).  Then the exact
+        list of every sample is unique as a set ---- *)
+Theorem boundary_free_unique : forall dist N k,
+  boundary_free_b dist N k = true -> rows_unique dist N k.
+Proof. exact boundary_free_rows_unique. Qed.
+Print Assumptions boundary_free_unique.
+
+(* order independence needs only unique rows at the k_j the recursion goes through *)
+Theorem cc_order_independent_unique : forall dist N knn1 knn2 p,
+  is_perm N p -> 1 <= N ->
+  (forall k, k <= N - 1 -> is_knn_graph dist N k (knn1 k)) ->
+  (forall k, k <= N - 1 ->
+     is_knn_graph (fun v u => dist (nth v p 0) (nth u p 0)) N k (knn2 k)) ->
+  forall k, 1 <= k ->
+  (forall j, rows_unique dist N (kseq N k j)) ->
+  exists k' g1 g2,
+    find_neighbors is_connected_fixed knn1 N N k true = COk (k', g1) /\
+    find_neighbors is_connected_fixed knn2 N N k true = COk (k', g2) /\
+    forall v u, v < N -> u < N ->
+      (In u (nth v g2 []) <-> In (nth u p 0) (nth (nth v p 0) g1 [])).
+Proof. exact main_cc_order_independent_unique. Qed.
+Print Assumptions cc_order_independent_unique.
+
+(* the rule by which the check separates the known finding from a violation: two exact searches (any order of
+   the samples) that end with DIFFERENT numbers of neighbours prove that the exact lists are not unique at some
+   k_j not above the smaller result *)
+Theorem cc_different_k_needs_tie : forall dist N knn1 knn2 p,
+  is_perm N p -> 1 <= N ->
+  (forall k, k <= N - 1 -> is_knn_graph dist N k (knn1 k)) ->
+  (forall k, k <= N - 1 ->
+     is_knn_graph (fun v u => dist (nth v p 0) (nth u p 0)) N k (knn2 k)) ->
+  forall k k1 k2 g1 g2, 1 <= k ->
+  find_neighbors is_connected_fixed knn1 N N k true = COk (k1, g1) ->
+  find_neighbors is_connected_fixed knn2 N N k true = COk (k2, g2) ->
+  k1 <> k2 ->
+  exists j, kseq N k j <= Nat.min k1 k2 /\ ~ rows_unique dist N (kseq N k j).
+Proof. exact main_cc_different_k_needs_tie. Qed.
+Print Assumptions cc_different_k_needs_tie.
 
 (* same samples, two different exact searches (brute force / VP-tree / cover tree) *)
 Theorem cc_method_independent : forall dist N knn1 knn2,
@@ -397,3 +438,10 @@ Example hyps_covertree_satisfiable :
   forall k q, k <= 5 - 1 -> q < 5 ->
     Knn_CoverSel_Model.cand_complete m_line_d 5 (Z.of_nat q) k (Knn_Spec.others 5 (Z.of_nat q)).
 Proof. exact nv_covertree. Qed.
+
+Example hyps_ties_satisfiable :
+  tie_free_b (pdist tied5_pts) 5 = false /\
+  boundary_free_b (pdist tied5_pts) 5 4 = true /\
+  boundary_free_b (pdist tied5_pts) 5 3 = false /\
+  (forall j, rows_unique (pdist tied5_pts) 5 (kseq 5 4 j)).
+Proof. exact nv_ties. Qed.
